@@ -252,6 +252,8 @@ func runCheck(o checkOpts) *CheckResult {
 		kk := strings.SplitN(x, "\x00", 2)
 		work = append(work, e.refinementsOf(kk[0], kk[1])...)
 	}
+	copies := map[string][]workItem{}
+	repOf := map[*FuncResult]string{}
 	for len(work) > 0 {
 		it := work[0]
 		work = work[1:]
@@ -268,6 +270,7 @@ func runCheck(o checkOpts) *CheckResult {
 			}
 			if first, dup := seenSSA[h]; dup {
 				skipped = append(skipped, fmt.Sprintf("%s: SSA identical to %s (verified there)", it.fn.String(), first))
+				copies[first+"|"+it.fc.Refines+it.fc.RefOf] = append(copies[first+"|"+it.fc.Refines+it.fc.RefOf], it)
 				continue
 			}
 			seenSSA[h] = it.fn.String()
@@ -277,6 +280,7 @@ func runCheck(o checkOpts) *CheckResult {
 		if it.fc.Refines != "" {
 			r.Key = k + " refines " + it.fc.Refines + " " + it.fc.RefOf
 		}
+		repOf[r] = it.fn.String() + "|" + it.fc.Refines + it.fc.RefOf
 		results = append(results, r)
 		if r.Err != "" {
 			body := map[string]interface{}{"obligation": r.Key + " (all obligations)", "function": r.Fn, "solver_reason": r.Err}
@@ -334,6 +338,50 @@ func runCheck(o checkOpts) *CheckResult {
 	}
 	tD := time.Now()
 	e.discharge(all)
+	// Template code is emitted identically for every struct shape and one copy is verified. An
+	// obligation the solvers leave undecided there (no model) is retried on the other copies:
+	// the code and the contract are the same, only the surrounding declarations differ, and
+	// that alone has turned "unsat" into "unknown". A proof for one copy is a proof for all.
+	for _, r := range results {
+		cs := copies[repOf[r]]
+		if len(cs) == 0 || r.Err != "" {
+			continue
+		}
+		undecided := map[string]*Obligation{}
+		for _, ob := range r.Obls {
+			if ob.Expect == "unsat" && (len(ob.Tags) == 0 || hasTag(ob.Tags, o.prop)) && !ob.ok() && ob.Res.Status != "sat" {
+				undecided[ob.Name] = ob
+			}
+		}
+		if os.Getenv("GOVC_DEBUG") != "" && len(undecided) > 0 {
+			fmt.Fprintf(os.Stderr, "copies: %s has %d undecided obligations, %d identical copies\n", r.Key, len(undecided), len(cs))
+		}
+		for _, c := range cs {
+			if len(undecided) == 0 {
+				break
+			}
+			r2 := e.verifyFunction(c.fn, c.fc)
+			if r2.Err != "" {
+				continue
+			}
+			var again []*Obligation
+			for _, ob := range r2.Obls {
+				if undecided[ob.Name] != nil {
+					again = append(again, ob)
+				}
+			}
+			e.discharge(again)
+			for _, ob := range again {
+				if ob.ok() {
+					orig := undecided[ob.Name]
+					orig.Res = ob.Res
+					orig.Res.Solver += " (on the identical copy " + c.fn.String() + ")"
+					orig.All = append(orig.All, ob.All...)
+					delete(undecided, ob.Name)
+				}
+			}
+		}
+	}
 	if os.Getenv("GOVC_DEBUG") != "" {
 		fmt.Fprintf(os.Stderr, "functions=%d obligations=%d generation=%.1fs discharge=%.1fs\n", len(results), len(all), tD.Sub(t0).Seconds(), time.Since(tD).Seconds())
 	}
